@@ -55,6 +55,8 @@ TTML_1 = b"""<?xml version="1.0" encoding="UTF-8"?>
   <styling>
    <initial tts:color="yellow"/>
    <style xml:id="s1" tts:fontSize="150%" tts:textShadow="1px 1px 2px red, 2px 2px" tts:textOutline="red 5%" tts:fontFamily="Arial, 'Some Font', monospace"/>
+   <style xml:id="s3" tts:fontFamily="Architect's Daughter, cursive, a fallback that is rather long, sansSerif" tts:fontSize="1c"/>
+   <style xml:id="s4" tts:fontFamily='"unclosed double quote followed by forty more characters, serif'/>
    <style xml:id="s2" style="s1" tts:textEmphasis="filled circle before" tts:textDecoration="underline lineThrough" tts:padding="1c 2c"/>
   </styling>
   <layout>
@@ -69,7 +71,7 @@ TTML_1 = b"""<?xml version="1.0" encoding="UTF-8"?>
   <div region="r1" begin="1s" dur="10s" xml:space="preserve">
    <p begin="00:00:02:15" end="300f" style="s1 s2"> one <span tts:color="rgba(255,0,0,128)" tts:fontStyle="italic">two<br/>three</span>
      <span><ruby><rb>base</rb><rt tts:rubyPosition="after">text</rt></ruby></span></p>
-   <p timeContainer="seq"><span dur="1.5s">a</span><span begin="0.5s" end="20t">b</span><set tts:visibility="hidden" dur="2s"/></p>
+   <p timeContainer="seq" style="s3"><span dur="1.5s" style="s4">a</span><span begin="0.5s" end="20t">b</span><set tts:visibility="hidden" dur="2s"/></p>
   </div>
   <div region="r2" timeContainer="seq"><p dur="2s" tts:textAlign="center" tts:lineHeight="normal" tts:linePadding="0.5c">x&amp;y &lt;z&gt;</p><p end="3s" tts:fillLineGap="true" tts:multiRowAlign="start">second</p></div>
  </body>
@@ -266,9 +268,18 @@ def random_scc(rng):
                                              for f, ws in lines)).encode("ascii")
 
 
+def srt_deep(depth=150):
+  """One cue with `depth` formatting tags open at the same time, all closed again, and more text after them; a second cue."""
+  tags = ["b", "i", "u", 'font color="#ff0000"']
+  opens = "".join("<%s>" % tags[k % 4] for k in range(depth))
+  closes = "".join("</%s>" % tags[k % 4].split(" ")[0] for k in reversed(range(depth)))
+  return ("1\n00:00:01,000 --> 00:00:02,000\nbefore %sdeep%s after <b>bold again</b>\nsecond line\n\n"
+          "2\n00:00:03,000 --> 00:00:04,000\nnext cue\n" % (opens, closes)).encode("utf-8")
+
+
 def seeds():
   """format -> list of (name, bytes)."""
-  out = {"ttml": [("hand1", TTML_1), ("hand2_ruby", TTML_2), ("hand3_cycles_subms", TTML_3), ("hand4_nested_open", TTML_4), ("hand5_nested_regions", TTML_5)], "srt": [("hand1", SRT_1), ("hand2_colours", SRT_2)],
+  out = {"ttml": [("hand1", TTML_1), ("hand2_ruby", TTML_2), ("hand3_cycles_subms", TTML_3), ("hand4_nested_open", TTML_4), ("hand5_nested_regions", TTML_5)], "srt": [("hand1", SRT_1), ("hand2_colours", SRT_2), ("hand3_deep_tags", srt_deep())],
          "vtt": [("hand1", VTT_1), ("hand2_ruby", VTT_2)], "scc": [("hand1", SCC_1)], "stl": [("hand_cumulative", stl_hand())]}
   for f in sorted(glob.glob(RES + "/ttml/*.ttml"))[:4]:
     out["ttml"].append((os.path.basename(f), open(f, "rb").read()))
